@@ -338,6 +338,9 @@ class Sym(Interp):
             return ("const", -v[1])
         if name == "not" and v[0] == "unop" and v[1] == "not":
             return ("unop", "truth", v[2])
+        if name == "not" and is_const(v) and isinstance(v[1], bool):
+            # `if not flag:` with the flag a literal on this path (keyword of an inlined helper): the test is the other literal
+            return ("const", not v[1])
         return ("unop", name, v)
 
     def h_boolop(self, op, vals, n, ctx):
